@@ -1,9 +1,423 @@
-/- C02 - model (stub: not built yet) -/
+/-
+C02 - model of `verifier.processSignature` (verifier/verifier.go) after a successful
+integrity check: plugin discovery, the sequence of validations with their level actions,
+early exit on a critical (enforce + failed) result, plugin execution and response
+processing. The truth of each individual validation is an input of the scenario (their own
+correctness is C03-C06); what is modelled here is how the level and the plugin decide.
+
+Level computation (`effective`) mirrors `SignatureVerification.GetVerificationLevel` and is
+defined over the tables regenerated from the source (`Facts.levels`, ...).
+-/
 import NotationModel.Basic
+import NotationModel.Generated.Levels
 open Lean
 
 namespace NotationModel.C02
 
-def judge (_ : Json) : Except String Json := .error "C02: model not built yet"
+/-! ### levels (Go: map[ValidationType]ValidationAction, strings) -/
+
+/-- a Go map from validation type to action; a missing key reads as the zero value `""` -/
+abbrev Enf := List (String × String)
+
+def Enf.get (e : Enf) (t : String) : String := (e.lookup t).getD ""
+
+/-- Go `m[k] = v` on an association list (replace or append) -/
+def Enf.set (e : Enf) (t a : String) : Enf :=
+  if e.any (·.1 == t) then e.map (fun p => if p.1 == t then (t, a) else p) else e ++ [(t, a)]
+
+def findLevel (name : String) : Option (String × Enf) :=
+  -- the Go loop keeps the *last* level with that name
+  (Facts.levels.filter (·.1 == name)).getLast?
+
+/-- one iteration of the override loop of `GetVerificationLevel` -/
+def applyOverride (acc : Except String Enf) (kv : String × String) : Except String Enf :=
+  match acc with
+  | .error e => .error e
+  | .ok enf =>
+    if !Facts.validationTypes.contains kv.1 || kv.1 == "" then .error "type"
+    else if !Facts.validationActions.contains kv.2 || kv.2 == "" then .error "action"
+    else if kv.1 == Facts.typeIntegrity then .error "integrity"
+    else if kv.1 != Facts.typeRevocation && kv.2 == Facts.actionSkip then .error "skip"
+    else .ok (enf.set kv.1 kv.2)
+
+/-- `SignatureVerification.GetVerificationLevel`: (level name, enforcement map) -/
+def effective (level : String) (override : List (String × String)) : Except String (String × Enf) :=
+  if level == "" then .error "empty"
+  else match findLevel level with
+    | none => .error "unknown"
+    | some (name, enf) =>
+      if override.isEmpty then .ok (name, enf)
+      else if name == "skip" then .error "skip-custom"
+      else match override.foldl applyOverride (.ok enf) with
+        | .error e => .error e
+        | .ok enf' => .ok ("custom", enf')
+
+/-! ### scenario -/
+
+/-- the `io.cncf.notary.verificationPlugin` extended attribute of the signature -/
+inductive PluginAttr
+  | absent | notCritical | notString | blank | named
+  deriving DecidableEq, Repr, FromJson, ToJson
+
+/-- the `io.cncf.notary.verificationPluginMinVersion` extended attribute -/
+inductive MinVerAttr
+  | absent | notCritical | notString | blank | invalidSemver | valid
+  deriving DecidableEq, Repr, FromJson, ToJson
+
+/-- what the plugin manager / plugin answer when asked -/
+inductive PluginState
+  | managerNil | notInstalled | metadataError | installed
+  deriving DecidableEq, Repr, FromJson, ToJson
+
+/-- installed plugin version relative to the demanded minimum -/
+inductive PluginVersion
+  | invalidSemver | tooOld | ok
+  deriving DecidableEq, Repr, FromJson, ToJson
+
+inductive Trust
+  | found          -- a chain certificate is in a loaded store
+  | notFound       -- stores loaded, none matches
+  | emptyStores    -- stores loaded but hold no certificate of the required type
+  | storeError     -- a listed store cannot be loaded
+  deriving DecidableEq, Repr, FromJson, ToJson
+
+inductive Revocation
+  | ok | revoked | unknown | validatorError
+  deriving DecidableEq, Repr, FromJson, ToJson
+
+/-- a verdict of the plugin for one capability -/
+inductive Verdict
+  | success | failure | missing
+  deriving DecidableEq, Repr, FromJson, ToJson
+
+/-- an extended attribute other than the two plugin headers -/
+structure ExtAttr where
+  key : String
+  critical : Bool
+  deriving DecidableEq, Repr, FromJson, ToJson
+
+structure Input where
+  level : String
+  override : List (String × String)
+  pluginAttr : PluginAttr
+  minVerAttr : MinVerAttr
+  extAttrs : List ExtAttr            -- non-plugin extended attributes (string keys)
+  pluginState : PluginState
+  pluginVersion : PluginVersion
+  capIdentity : Bool                 -- plugin declares SIGNATURE_VERIFIER.TRUSTED_IDENTITY
+  capRevocation : Bool               -- plugin declares SIGNATURE_VERIFIER.REVOCATION_CHECK
+  trust : Trust
+  identityMatch : Bool               -- outcome of the native trusted-identity check
+  expired : Bool
+  timestampOk : Bool                 -- outcome of the authentic-timestamp validation
+  revocation : Revocation            -- what the native validator would report
+  pluginCallError : Bool             -- VerifySignature returns an error
+  processed : List String            -- attribute keys the plugin reports as processed
+  verdictIdentity : Verdict
+  verdictRevocation : Verdict
+  deriving Repr, FromJson, ToJson
+
+structure Result where
+  type : String
+  action : String
+  failed : Bool
+  deriving DecidableEq, Repr, FromJson, ToJson
+
+structure Obs where
+  accepted : Bool                    -- processSignature returned nil
+  results : List Result              -- outcome.VerificationResults after integrity, in order
+  storeLoads : Nat                   -- trust store GetCertificates calls (ca / signingAuthority)
+  validatorCalls : Nat               -- native code-signing revocation validator calls
+  managerGets : Nat                  -- plugin manager Get calls
+  pluginVerifyCaps : Option (List String)   -- capabilities in the VerifySignature request
+  pluginAttrsToProcess : Option (List String) -- attribute keys handed to the plugin (sorted)
+  deriving DecidableEq, Repr, FromJson, ToJson
+
+def capIdentity : String := "SIGNATURE_VERIFIER.TRUSTED_IDENTITY"
+def capRevocation : String := "SIGNATURE_VERIFIER.REVOCATION_CHECK"
+
+def isCritical (r : Result) : Bool := r.action == Facts.actionEnforce && r.failed
+
+/-- mutable part of `processSignature` -/
+structure St where
+  results : List Result := []
+  storeLoads : Nat := 0
+  validatorCalls : Nat := 0
+  managerGets : Nat := 0
+  pluginVerifyCaps : Option (List String) := none
+  pluginAttrsToProcess : Option (List String) := none
+  deriving Repr
+
+def St.obs (s : St) (accepted : Bool) : Obs :=
+  { accepted := accepted, results := s.results, storeLoads := s.storeLoads,
+    validatorCalls := s.validatorCalls, managerGets := s.managerGets,
+    pluginVerifyCaps := s.pluginVerifyCaps, pluginAttrsToProcess := s.pluginAttrsToProcess }
+
+/-- Go: find the first authenticity result and set its error -/
+def failAuthenticity (rs : List Result) : List Result :=
+  match rs with
+  | [] => []
+  | r :: rest => if r.type == Facts.typeAuthenticity then { r with failed := true } :: rest
+                 else r :: failAuthenticity rest
+
+def authResult (rs : List Result) : Option Result := rs.find? (·.type == Facts.typeAuthenticity)
+
+/-- insertion sort of keys (the harness sorts what came out of a Go map) -/
+def insertSorted (k : String) : List String → List String
+  | [] => [k]
+  | x :: xs => if k ≤ x then k :: x :: xs else x :: insertSorted k xs
+def sortKeys (l : List String) : List String := l.foldr insertSorted []
+
+/-- one capability of the loop in `processPluginResponse`; `.error s` = return with an error -/
+def respondCap (i : Input) (enf : Enf) (s : St) (c : String) : Except St St :=
+  if c == capIdentity then
+    match i.verdictIdentity with
+    | .missing => .error s
+    | .success => .ok s
+    | .failure =>
+      let rs := failAuthenticity s.results
+      let s' := { s with results := rs }
+      match authResult rs with
+      | some r => if isCritical r then .error s' else .ok s'
+      | none => .error s'      -- unreachable: the authenticity result always exists here
+  else if c == capRevocation then
+    match i.verdictRevocation with
+    | .missing => .error s
+    | v =>
+      let r : Result := { type := Facts.typeRevocation, action := enf.get Facts.typeRevocation,
+                          failed := v == .failure }
+      let s' := { s with results := s.results ++ [r] }
+      if isCritical r then .error s' else .ok s'
+  else .ok s
+
+def respondCaps (i : Input) (enf : Enf) : List String → St → Except St St
+  | [], s => .ok s
+  | c :: rest, s =>
+    match respondCap i enf s c with
+    | .error s' => .error s'
+    | .ok s' => respondCaps i enf rest s'
+
+/-- `processPluginResponse` over the capabilities that were requested -/
+def processResponse (i : Input) (enf : Enf) (caps : List String) (s : St) : Except St St :=
+  -- every non-plugin extended attribute must have been processed (critical flag not consulted)
+  if i.extAttrs.any (fun a => !i.processed.contains a.key) then .error s
+  else respondCaps i enf caps s
+
+/-- capabilities kept by the filter over `metadata.Capabilities`, in the plugin's order -/
+def capsOf (i : Input) : List String :=
+  if i.pluginAttr == .named then
+    (if i.capIdentity then [capIdentity] else []) ++ (if i.capRevocation then [capRevocation] else [])
+  else []
+
+/-- plugin discovery: `.error s` = processSignature returns an error before any validation -/
+def discover (i : Input) (s : St) : Except St St :=
+  -- getVerificationPlugin: an existing but malformed attribute is an error
+  if i.pluginAttr == .notCritical || i.pluginAttr == .notString || i.pluginAttr == .blank then .error s
+  else if i.pluginAttr != .named then .ok s
+  -- min version attribute is only looked at when a plugin is named
+  else if i.minVerAttr == .notCritical || i.minVerAttr == .notString || i.minVerAttr == .blank ||
+      i.minVerAttr == .invalidSemver then .error s
+  else if i.pluginState == .managerNil then .error s
+  else
+  let s := { s with managerGets := s.managerGets + 1 }
+  if i.pluginState == .notInstalled then .error s
+  else if i.pluginState == .metadataError then .error s
+  else if i.pluginVersion == .invalidSemver then .error s
+  else if i.minVerAttr == .valid && i.pluginVersion == .tooOld then .error s
+  else if (capsOf i).isEmpty then .error s
+  else .ok s
+
+/-- append a validation result; a critical one stops the workflow -/
+def St.push (s : St) (r : Result) : Except St St :=
+  let s' := { s with results := s.results ++ [r] }
+  if isCritical r then .error s' else .ok s'
+
+/-- authenticity: trust stores, then the native identity check unless the plugin owns it
+(the identity error overwrites the error of the same result object) -/
+def authStage (i : Input) (enf : Enf) (s : St) : Except St St :=
+  let s := { s with storeLoads := s.storeLoads + 1 }
+  let auth : Result := { type := Facts.typeAuthenticity, action := enf.get Facts.typeAuthenticity,
+                         failed := i.trust != .found }
+  match s.push auth with
+  | .error s' => .error s'
+  | .ok s' =>
+    if !(capsOf i).contains capIdentity && !i.identityMatch then
+      let s'' := { s' with results := failAuthenticity s'.results }
+      if isCritical { auth with failed := true } then .error s'' else .ok s''
+    else .ok s'
+
+def expiryStage (i : Input) (enf : Enf) (s : St) : Except St St :=
+  s.push { type := Facts.typeExpiry, action := enf.get Facts.typeExpiry, failed := i.expired }
+
+def timestampStage (i : Input) (enf : Enf) (s : St) : Except St St :=
+  s.push { type := Facts.typeAuthenticTimestamp, action := enf.get Facts.typeAuthenticTimestamp,
+           failed := !i.timestampOk }
+
+def revSkippedBy (enf : Enf) : Bool := enf.get Facts.typeRevocation == Facts.actionSkip
+
+/-- native revocation, unless skipped by the level or owned by the plugin -/
+def revocationStage (i : Input) (enf : Enf) (s : St) : Except St St :=
+  if !revSkippedBy enf && !(capsOf i).contains capRevocation then
+    let s := { s with validatorCalls := s.validatorCalls + 1 }
+    s.push { type := Facts.typeRevocation, action := enf.get Facts.typeRevocation,
+             failed := i.revocation != .ok }
+  else .ok s
+
+/-- capabilities the plugin is asked to verify -/
+def toVerify (i : Input) (enf : Enf) : List String :=
+  (capsOf i).filter (fun c => !(revSkippedBy enf && c == capRevocation))
+
+/-- plugin execution / the no-plugin attribute check -/
+def pluginStage (i : Input) (enf : Enf) (s : St) : Except St St :=
+  if i.pluginAttr == .named then
+    if (toVerify i enf).isEmpty then
+      .ok s                            -- plugin named but never executed (known finding F-C02b)
+    else
+      let s := { s with pluginVerifyCaps := some (toVerify i enf),
+                        pluginAttrsToProcess := some (sortKeys (i.extAttrs.map (·.key))) }
+      if i.pluginCallError then .error s
+      else processResponse i enf (toVerify i enf) s
+  else
+    -- no plugin named: a critical extended attribute cannot be processed by anyone
+    if i.extAttrs.any (·.critical) then .error s else .ok s
+
+/-- `processSignature` from the point where integrity has passed -/
+def processE (i : Input) (enf : Enf) : Except St St :=
+  discover i {} >>= authStage i enf >>= expiryStage i enf >>= timestampStage i enf >>=
+    revocationStage i enf >>= pluginStage i enf
+
+def process (i : Input) (enf : Enf) : Obs :=
+  match processE i enf with
+  | .ok s => s.obs true
+  | .error s => s.obs false
+
+/-- `verifier.Verify` up to the end of `processSignature`, for a signature that passes
+integrity under the statement's level (the policy document is valid, so `effective` succeeds;
+an invalid pair is reported as rejected with no results) -/
+def run (i : Input) : Obs :=
+  match effective i.level i.override with
+  | .error _ => ({} : St).obs false
+  | .ok (_, enf) => process i enf
+
+/-! ### the property over observables -/
+
+def enfOf (i : Input) : Enf :=
+  match effective i.level i.override with
+  | .ok (_, e) => e
+  | .error _ => []
+
+def levelOK (i : Input) : Bool :=
+  match effective i.level i.override with
+  | .ok _ => true
+  | .error _ => false
+
+/-- the scenario stays inside the property's quantifier: a legal (level, override) pair, plugin
+attributes well-formed and every other extended attribute critical -/
+def inDomain (i : Input) : Bool :=
+  levelOK i &&
+  (i.pluginAttr == .absent || i.pluginAttr == .named) &&
+  (i.minVerAttr == .absent || i.minVerAttr == .valid) &&
+  i.extAttrs.all (·.critical)
+
+def named (i : Input) : Bool := i.pluginAttr == .named
+
+/-- the plugin the signature names can be used at all -/
+def pluginUsable (i : Input) : Bool :=
+  i.pluginState == .installed && i.pluginVersion != .invalidSemver &&
+  !(i.minVerAttr == .valid && i.pluginVersion == .tooOld) && (i.capIdentity || i.capRevocation)
+
+/-- capabilities the plugin is asked to verify -/
+def askedIdentity (i : Input) : Bool := named i && i.capIdentity
+def askedRevocation (i : Input) (enf : Enf) : Bool := named i && i.capRevocation && !revSkippedBy enf
+def pluginExecuted (i : Input) (enf : Enf) : Bool := askedIdentity i || askedRevocation i enf
+
+/-- ground truth of each validation in this scenario, as the property describes it -/
+def authFailedTruth (i : Input) : Bool :=
+  i.trust != .found ||
+  (if askedIdentity i then i.verdictIdentity == .failure else !i.identityMatch)
+def revFailedTruth (i : Input) (enf : Enf) : Bool :=
+  if askedRevocation i enf then i.verdictRevocation == .failure else i.revocation != .ok
+
+/-- plugin-related reasons to fail (second half of the property's first sentence) -/
+def pluginOK (i : Input) (enf : Enf) : Bool :=
+  if named i then
+    pluginUsable i &&
+    (if pluginExecuted i enf then
+        !i.pluginCallError &&
+        (!askedIdentity i || i.verdictIdentity != .missing) &&
+        (!askedRevocation i enf || i.verdictRevocation != .missing) &&
+        i.extAttrs.all (fun a => i.processed.contains a.key)
+      else
+        -- nobody processes the attributes: none may be critical
+        !i.extAttrs.any (·.critical))
+  else !i.extAttrs.any (·.critical)
+
+def enforcedFailure (o : Obs) : Bool := o.results.any isCritical
+
+/-- the known finding F-C02b: a usable plugin is named but never executed (its only capability
+is revocation and the level skips revocation) while a critical extended attribute is present -/
+def knownFinding (i : Input) (enf : Enf) : Bool :=
+  named i && pluginUsable i && !pluginExecuted i enf && i.extAttrs.any (·.critical)
+
+def enforced (enf : Enf) (t : String) : Bool := enf.get t == Facts.actionEnforce
+
+/-- acceptance written as one closed formula over the scenario and the level: no enforced
+validation fails (each judged by whoever owns it) and the plugin conditions hold -/
+def acceptSpec (i : Input) (enf : Enf) : Bool :=
+  !(enforced enf Facts.typeAuthenticity && authFailedTruth i) &&
+  !(enforced enf Facts.typeExpiry && i.expired) &&
+  !(enforced enf Facts.typeAuthenticTimestamp && !i.timestampOk) &&
+  !(enforced enf Facts.typeRevocation && !revSkippedBy enf && revFailedTruth i enf) &&
+  pluginOK i enf
+
+def resultOf (o : Obs) (t : String) : Option Result := o.results.find? (·.type == t)
+
+def clausesFor (i : Input) (enf : Enf) (o : Obs) : Clauses :=
+  [ -- fails exactly when an enforced validation failed or the plugin conditions are not met
+    ("reject_iff_enforced_failure_or_plugin",
+      !inDomain i || (o.accepted == (!enforcedFailure o && pluginOK i enf))),
+    ("accepted_iff_closed_formula",
+      !inDomain i || knownFinding i enf || o.accepted == acceptSpec i enf),
+    -- every reported result carries the action the level assigns to its type
+    ("results_carry_level_action", o.results.all (fun r => r.action == enf.get r.type)),
+    -- a failed validation whose action is log is reported but does not fail the outcome:
+    -- the reported results tell the truth about each validation that was evaluated
+    ("authenticity_result_truthful",
+      match resultOf o Facts.typeAuthenticity with
+      | some r => !o.accepted || !inDomain i || r.failed == authFailedTruth i
+      | none => !o.accepted),
+    ("expiry_result_truthful",
+      match resultOf o Facts.typeExpiry with
+      | some r => r.failed == i.expired
+      | none => !o.accepted),
+    ("timestamp_result_truthful",
+      match resultOf o Facts.typeAuthenticTimestamp with
+      | some r => r.failed == !i.timestampOk
+      | none => !o.accepted),
+    ("revocation_result_truthful",
+      match resultOf o Facts.typeRevocation with
+      | some r => !revSkippedBy enf && (!inDomain i || !o.accepted || r.failed == revFailedTruth i enf)
+      | none => !o.accepted || !inDomain i || revSkippedBy enf),
+    -- a skipped revocation validation is not performed at all, natively or by plugin
+    ("skipped_revocation_not_performed",
+      !revSkippedBy enf || (o.validatorCalls == 0 && (resultOf o Facts.typeRevocation).isNone &&
+        match o.pluginVerifyCaps with
+        | some caps => !caps.contains capRevocation
+        | none => true)),
+    -- a capability the plugin declares replaces the native check
+    ("plugin_revocation_replaces_native", !(named i && i.capRevocation) || o.validatorCalls == 0),
+    ("native_revocation_once", decide (o.validatorCalls ≤ 1)),
+    -- the plugin is asked exactly for the capabilities it owns (minus skipped revocation)
+    ("plugin_request_capabilities",
+      match o.pluginVerifyCaps with
+      | some caps => named i && caps == ((if i.capIdentity then [capIdentity] else []) ++
+                                          (if i.capRevocation && !revSkippedBy enf then [capRevocation] else []))
+      | none => true) ]
+
+def clauses (i : Input) (o : Obs) : Clauses := clausesFor i (enfOf i) o
+
+def Holds (i : Input) (o : Obs) : Bool := (clauses i o).holds
+
+def judge := judgeWith run clauses
 
 end NotationModel.C02
